@@ -120,7 +120,8 @@ func (p *contentProvider) findOffset(filename bool, r uint32) uint32 {
 	if filename {
 		data = p.id.fileNameContent[byteOff:]
 	} else {
-		data, p.err = p.id.readContentSlice(byteOff, 3*runeOffsetFrequency)
+		// up to runeOffsetFrequency runes of up to utf8.UTFMax bytes each
+		data, p.err = p.id.readContentSlice(byteOff, utf8.UTFMax*runeOffsetFrequency)
 		if p.err != nil {
 			return 0
 		}
